@@ -116,8 +116,15 @@ def _gen_machine(rng, X, c):
     w = gen_simplex(rng, c)
     if rng.random() < 0.2:  # positive weights that do not sum to one are accepted by the machine
         w = sig6(w * rng.uniform(0.3, 3.0))
-    return {"c": c, "means": L(sig6(means)), "variances": L(sig6(variances)),
-            "weights": L(w), "floor": floor}
+    out = {"c": c, "means": L(sig6(means)), "variances": L(sig6(variances)),
+           "weights": L(w), "floor": floor,
+           "um": rng.random() < 0.7, "uv": rng.random() < 0.4, "uw": rng.random() < 0.4}
+    if rng.random() < 0.2:
+        out["mkind"] = {"prior_weights": L(gen_simplex(rng, c)), "shift": rng.choice([0.0, 0.5, 2.0]),
+                        "vscale": rng.choice([0.5, 1.0, 3.0]),
+                        "um": rng.random() < 0.7, "uv": rng.random() < 0.3, "uw": rng.random() < 0.3,
+                        "weights_in_constructor": rng.random() < 0.5}
+    return out
 
 
 def _gen_merge(rng, nb):
@@ -269,8 +276,25 @@ def sample_view(case):
 def _mk(g):
     from bob.learn.em import GMMMachine
 
-    m = GMMMachine(g["c"])
-    m.weights = A(g["weights"])
+    mk = g.get("mkind")
+    if mk:
+        # an adapted (MAP) machine computes its statistics from its OWN visible parameters,
+        # whatever its prior holds and whichever update switches are on
+        prior = GMMMachine(g["c"])
+        prior.weights = A(mk["prior_weights"])
+        prior.means = A(g["means"]) + mk["shift"] * np.sqrt(A(g["variances"]))
+        prior.variances = A(g["variances"]) * mk["vscale"]
+        kw = dict(trainer="map", ubm=prior, update_means=mk["um"], update_variances=mk["uv"],
+                  update_weights=mk["uw"])
+        if mk["weights_in_constructor"]:
+            m = GMMMachine(g["c"], weights=A(g["weights"]), **kw)
+        else:
+            m = GMMMachine(g["c"], **kw)
+            m.weights = A(g["weights"])
+    else:
+        m = GMMMachine(g["c"], update_means=g.get("um", True), update_variances=g.get("uv", False),
+                       update_weights=g.get("uw", False))
+        m.weights = A(g["weights"])
     m.means = A(g["means"])
     if g["floor"] is not None:
         m.variance_thresholds = A(g["floor"]) if isinstance(g["floor"], list) else g["floor"]
@@ -415,6 +439,7 @@ def run_case(case, replay=None):
         rec.probe("lazy_merge")
     for sp in case.get("special", []):
         rec.probe("special_" + sp)
+    rec.probe("statistics_from_a_map_machine", bool(case["gmm"].get("mkind")))
 
     # per-block invariants on concrete partials
     def inv(st, want_rows, where):
